@@ -46,6 +46,7 @@ func main() {
 	runSpecialParity()
 	runConflictingLevelHint()
 	runGS1()
+	runCharsetBytes()
 	runTwinSequences()
 	runAutoMask()
 	runPenaltyRules()
@@ -63,6 +64,11 @@ func replay() {
 	}
 	fmt.Printf("replay %+v\n", c)
 	switch c.Kind {
+	case "charset-bytes":
+		fmt.Println("the charset-bytes family is re-run")
+		runCharsetBytes()
+	case "default-encoding":
+		runDefaultEncoding()
 	case "penalty":
 		var pc penCase
 		if err := mc.LoadReplay(chk.ReplayFile(), &pc); err == nil {
